@@ -35,6 +35,9 @@ def check(ctx):
               "the cancel bit is published before the blocked io is kicked (the woken coroutine must see it)")
     ctx.order(CC, atomic("fetch_or", C + ".state"), ao("take", C + ".co"), "flag-then-take",
               "the cancel bit is published before the parked coroutine is taken (a concurrent subscribe re-checks the bit)")
+    ctx.must_follow(CC, atomic("fetch_or", C + ".state"), Call(r"may::cancel::CancelIo::cancel|<.* as may::cancel::CancelIo>::cancel", transitive=False), "cancel-always-proceeds",
+                    "cancel() always goes on to wake the target after setting the bit, also when the bit was already set: the subscribers' own re-check calls cancel() with the bit set "
+                    "(a cancel that landed during registration is delivered by that second call)")
     f = ctx.fn("R-ORDER", CC, "sets-bit-0")
     if f is not None:
         ok = False; site = None
